@@ -405,6 +405,9 @@ func find(name string) (string, error) {
 	} else if util.FileExists(name) {
 		// the name has an extension
 		return filepath.Abs(name)
+	} else if alt := util.AddYamlExtension(name); alt != name && util.FileExists(alt) {
+		// the other store operations file a name given as x.yml under x.yaml
+		return filepath.Abs(alt)
 	}
 	return "", fmt.Errorf("sub workflow %s not found", name)
 }
